@@ -223,6 +223,17 @@ func (r *Run) Count(counter string, n int) {
 	r.st.Counters[counter] += n
 }
 
+// Counters returns a copy of the counters.
+func (r *Run) Counters() map[string]int {
+	r.mu.Lock()
+	defer r.mu.Unlock()
+	out := make(map[string]int, len(r.st.Counters))
+	for k, v := range r.st.Counters {
+		out[k] = v
+	}
+	return out
+}
+
 func (r *Run) Note(format string, args ...any) {
 	r.mu.Lock()
 	defer r.mu.Unlock()
